@@ -278,6 +278,14 @@ def m5_union_sub_objects(ctx) -> None:
         par, objs = norm(inner[0].target.elts[0]), norm(inner[0].target.elts[1])
         ok_set = bool(PT.find_all(inner[0], "_M_res[_M_i] = _M_objs", {"_M_res": res, "_M_i": i, "_M_objs": objs}))
         ok_yield = bool(PT.find_all(inner[0], "(yield (_M_pm(_M_par), tuple(_M_res)))", {"_M_pm": pm[0][1]["_M_pm"], "_M_par": par, "_M_res": res}))
+    # every entry of the child's level is yielded: nothing inside the inner loop can skip one
+    if inner:
+        ys = [y for y in walk_local(inner[0]) if isinstance(y, (ast.Yield, ast.YieldFrom))]
+        for y in ys:
+            sk = [(norm(t), p_) for t, p_ in C.guards(f, y, within=inner[0]) if not isinstance(getattr(t, "_parent", None), ast.Assert)]
+            if sk:
+                ctx.violation("M5", y, f"DisjointUnion.get_sub_objects yields a child's objects only under {sk}: objects that are counted (get_terms adds every entry of the "
+                              "child's terms) are not generated, or the two disagree on which entries belong to the union")
     resets = [n for n in outer.body if PT.match(PT.compile_pattern("_M_res[_M_i] = [None]"), n, {"_M_res": res, "_M_i": i}) is not None]
     ok_reset = bool(resets) and bool(inner) and outer.body.index(resets[-1]) > outer.body.index(inner[0])
     if ok_map and ok_set and ok_yield and ok_reset and ok_call:
